@@ -363,8 +363,23 @@ def bool_eval(expr, env):
   if isinstance(expr, ast.UnaryOp) and isinstance(expr.op, ast.Not):
     return not bool_eval(expr.operand, env)
   if isinstance(expr, ast.BoolOp):
-    vs = [bool_eval(v, env) for v in expr.values]
-    return all(vs) if isinstance(expr.op, ast.And) else any(vs)
+    vs = []
+    for v in expr.values:
+      try:
+        vs.append(bool_eval(v, env))
+      except Unsupported:
+        vs.append(None)
+    if isinstance(expr.op, ast.And):
+      if any(v is False for v in vs):
+        return False
+      if all(v is True for v in vs):
+        return True
+    else:
+      if any(v is True for v in vs):
+        return True
+      if all(v is False for v in vs):
+        return False
+    raise Unsupported(astu.src(expr))
   s = astu.src(expr)
   if s in env:
     return env[s]
@@ -578,17 +593,27 @@ def judge_call_args(R, repo, f, call, expected_pos, key, where, msg, forwarded_k
 def reach_env(c, env, flags_func=None):
   """Reachability from entry under an assumption `env` ({source text or name: bool}) about the values tested.
 
-  Returns (may, must): `may` = nodes reachable when only the edges contradicting env are removed (unevaluable tests keep
-  both edges); `must` = nodes reachable when, in addition, unevaluable tests are not crossed at all.  A node in `must`
-  is reached under the assumption whatever the unknown tests do: positive evidence."""
+  Returns (may, must): `may` = nodes reachable when only the edges contradicting env are removed; `must` = nodes reachable
+  when, in addition, tests that talk about the assumed quantities but cannot be evaluated are not crossed at all (tests
+  about unrelated quantities are free: either branch can happen).  A node in `must` is reached in some execution that
+  satisfies the assumption: positive evidence."""
   cut, unknown = [], []
+  env_names = set()
+  for k in env:
+    try:
+      env_names |= {n.id for n in ast.walk(ast.parse(k)) if isinstance(n, ast.Name)} | {n.attr for n in ast.walk(ast.parse(k)) if isinstance(n, ast.Attribute)}
+    except SyntaxError:
+      pass
+  env_names -= {'self'}
   for n in c.nodes:
     if n.kind in ('if', 'while') and n.ast is not None:
-      test = n.ast
+      test = _subst_flags(n.ast, flags_func or c.func)
       try:
-        v = bool_eval(_subst_flags(test, flags_func or c.func), env)
+        v = bool_eval(test, env)
       except Unsupported:
-        unknown += [(n, m, l) for m, l in c.succ[n] if l in ('T', 'F')]
+        mentioned = {x.id for x in ast.walk(test) if isinstance(x, ast.Name)} | {x.attr for x in ast.walk(test) if isinstance(x, ast.Attribute)}
+        if mentioned & env_names:
+          unknown += [(n, m, l) for m, l in c.succ[n] if l in ('T', 'F')]
         continue
       cut += [(n, m, l) for m, l in c.succ[n] if l in ('T', 'F') and (l == 'T') != v]
   may = c.reach([c.entry], avoid_edges=cut, include_src=True)
